@@ -15,7 +15,8 @@
 
 namespace vs {
 
-enum { K_INC = 1, K_DEC = 2, K_FREE = 3, K_LOCK = 4, K_UNLOCK = 5 };
+enum { K_INC = 1, K_DEC = 2, K_FREE = 3, K_LOCK = 4, K_UNLOCK = 5,
+       K_SPAWN = 10, K_BEGIN = 11, K_READY = 12, K_SPIN = 13, K_END = 14, K_JOIN = 15 };
 
 struct Ev { int tid, kind; const volatile void* addr; };
 struct Decision { std::vector<int> enabled; int chosen; };
@@ -26,11 +27,15 @@ struct Sched {
 	struct T { int state; int kind; const volatile void* addr; bool go; };
 	std::vector<T> ts;                       // state: 0 running, 1 at a point, 2 finished
 	std::map<const volatile void*, int> owner; // mutex -> holder
+	std::map<const volatile void*, int> readyCtx;  // hand-over contexts whose worker has passed its READY point
+	std::map<const volatile void*, int> ended;     // pthread handles whose thread function has reached its END point
+	int expected, registered;                // threads announced by SPAWN points / threads that have reached BEGIN
+	bool adopt;                              // library-created threads join the schedule at their BEGIN point
 	std::vector<Ev> trace;
 	bool active;
 	bool record_only;                        // no blocking: just append to trace (shape recording)
 	std::function<bool(int, int, const volatile void*)> blocked; // extra "not enabled" predicate (tid, kind, addr)
-	Sched() : active(false), record_only(false) {}
+	Sched() : expected(0), registered(0), adopt(false), active(false), record_only(false) {}
 };
 
 inline Sched& S() { static Sched s; return s; }
@@ -41,12 +46,22 @@ inline void hook(int kind, const volatile void* addr)
 	Sched& s = S();
 	if (s.record_only) { Ev e = { tid(), kind, addr }; s.trace.push_back(e); return; }
 	int me = tid();
-	if (!s.active || me < 0) return;
+	if (!s.active) return;
 	std::unique_lock<std::mutex> lk(s.mu);
-	Sched::T& t = s.ts[me];
-	t.state = 1; t.kind = kind; t.addr = addr; t.go = false;
+	if (me < 0) {
+		if (!(s.adopt && kind == K_BEGIN)) return;
+		me = tid() = (int)s.ts.size();
+		s.ts.push_back(Sched::T());
+		s.registered++;
+	}
+	if (!s.active) return;
+	{
+		Sched::T& t = s.ts[me];
+		t.state = 1; t.kind = kind; t.addr = addr; t.go = false;
+	}
 	s.cv.notify_all();
 	s.cv.wait(lk, [&] { return s.ts[me].go; });
+	if (kind == K_END) { tid() = -1; return; }   // recorded by the controller; whatever follows runs free
 	Ev e = { me, kind, addr };
 	s.trace.push_back(e);
 }
@@ -64,6 +79,9 @@ inline std::vector<Decision> run(const std::vector<std::function<void()> >& bodi
 		s.ts.assign(n, Sched::T());
 		for (int i = 0; i < n; i++) { s.ts[i].state = 0; s.ts[i].go = false; }
 		s.owner.clear();
+		s.readyCtx.clear();
+		s.ended.clear();
+		s.expected = s.registered = n;
 		s.trace.clear();
 		s.active = true;
 	}
@@ -81,13 +99,18 @@ inline std::vector<Decision> run(const std::vector<std::function<void()> >& bodi
 	if (deadlock) *deadlock = false;
 	for (;;) {
 		std::unique_lock<std::mutex> lk(s.mu);
-		s.cv.wait(lk, [&] { for (int i = 0; i < n; i++) if (s.ts[i].state == 0) return false; return true; });
+		s.cv.wait(lk, [&] {
+			if (s.registered < s.expected) return false;
+			for (size_t i = 0; i < s.ts.size(); i++) if (s.ts[i].state == 0) return false;
+			return true; });
 		Decision d;
 		bool unfinished = false;
-		for (int i = 0; i < n; i++) {
+		for (int i = 0; i < (int)s.ts.size(); i++) {
 			if (s.ts[i].state != 1) continue;
 			unfinished = true;
 			if (s.ts[i].kind == K_LOCK && s.owner.count(s.ts[i].addr)) continue;
+			if (s.ts[i].kind == K_SPIN && !s.readyCtx.count(s.ts[i].addr)) continue;
+			if (s.ts[i].kind == K_JOIN && !s.ended.count(s.ts[i].addr)) continue;
 			if (s.blocked && s.blocked(i, s.ts[i].kind, s.ts[i].addr)) continue;
 			d.enabled.push_back(i);
 		}
@@ -96,7 +119,7 @@ inline std::vector<Decision> run(const std::vector<std::function<void()> >& bodi
 				if (deadlock) *deadlock = true;
 				// release everything so that the process can end
 				s.active = false;
-				for (int i = 0; i < n; i++) s.ts[i].go = true;
+				for (size_t i = 0; i < s.ts.size(); i++) s.ts[i].go = true;
 				s.cv.notify_all();
 			}
 			break;
@@ -113,6 +136,19 @@ inline std::vector<Decision> run(const std::vector<std::function<void()> >& bodi
 		ds.push_back(d);
 		if (s.ts[pick].kind == K_LOCK) s.owner[s.ts[pick].addr] = pick;
 		if (s.ts[pick].kind == K_UNLOCK) s.owner.erase(s.ts[pick].addr);
+		if (s.ts[pick].kind == K_SPAWN) { s.expected++; s.readyCtx.erase(s.ts[pick].addr); }
+		if (s.ts[pick].kind == K_READY) s.readyCtx[s.ts[pick].addr] = 1;
+		if (s.ts[pick].kind == K_JOIN) s.ended.erase(s.ts[pick].addr);
+		if (s.ts[pick].kind == K_END) {
+			// the thread function is over: the rest (finished flag, thread exit) runs free; joins synchronize with it for real
+			s.ended[s.ts[pick].addr] = 1;
+			Ev e = { pick, K_END, s.ts[pick].addr };
+			s.trace.push_back(e);
+			s.ts[pick].state = 2;
+			s.ts[pick].go = true;
+			s.cv.notify_all();
+			continue;
+		}
 		s.ts[pick].state = 0;
 		s.ts[pick].go = true;
 		s.cv.notify_all();
